@@ -110,6 +110,8 @@ package mqtt
 //@   ensures[C17] stored: c.handler == handler
 //@   ensures[C17] forwarded: guardVal(&c.cli) != nil ==> evCount("(*BaseClient).Handle") == 1 && evArg[*BaseClient]("(*BaseClient).Handle", 0, 0) == guardVal(&c.cli) &&
 //@        evArg[Handler]("(*BaseClient).Handle", 0, 1) == handler
+//@   ensures[C17] atomically: evCount("lock") == 1 && evArg[*sync.RWMutex]("lock", 0, 0) == &c.mu && evCount("unlock") == 1 &&
+//@        (evCount("(*BaseClient).Handle") == 1 ==> evIndex("lock", 0) < evIndex("(*BaseClient).Handle", 0) && evIndex("(*BaseClient).Handle", 0) < evIndex("unlock", 0))
 
 //@ func (*RetryClient).Connect
 //@   mode int
@@ -124,6 +126,8 @@ package mqtt
 //@        evArg[*BaseClient]("(*BaseClient).Handle", 0, 0) == evArg[*BaseClient]("(*BaseClient).Connect", 0, 0) &&
 //@        evArg[Handler]("(*BaseClient).Handle", 0, 1) == guardVal(&c.handler) && evArg[*BaseClient]("(*BaseClient).Connect", 0, 0) == guardVal(&c.cli) &&
 //@        evIndex("(*BaseClient).Handle", 0) < evIndex("(*BaseClient).Connect", 0)
+//@   ensures[C17] installed_atomically: evCount("lock") >= 1 && evArg[*sync.RWMutex]("lock", 0, 0) == &c.mu && evArg[*sync.RWMutex]("unlock", 0, 0) == &c.mu &&
+//@        evIndex("lock", 0) < evIndex("(*BaseClient).Handle", 0) && evIndex("(*BaseClient).Handle", 0) < evIndex("unlock", 0)
 //@   ensures[C09] same_connect: evArg[string]("(*BaseClient).Connect", 0, 2) == clientID && sameSlice(evArg[[]ConnectOption]("(*BaseClient).Connect", 0, 3), opts) &&
 //@        evArg[context.Context]("(*BaseClient).Connect", 0, 1) == ctx
 //@   ensures[C01] signalled: evCount("close") == 1 && evIndex("(*BaseClient).Connect", 0) < evIndex("close", 0)
@@ -148,7 +152,7 @@ package mqtt
 
 //@ func (*RetryClient).onError
 //@   mode int
-//@   props C18
+//@   props C18 C11
 //@   requires c != nil
 //@   assigns nothing
 //@   ensures[C18] reported: evCount("callback:func(error)") == ite(c.OnError != nil, 1, 0) &&
@@ -397,7 +401,7 @@ package mqtt
 //@ func (*RetryClient).SetClient$1
 //@   role task
 //@   mode int
-//@   props C01 C03 C18
+//@   props C01 C02 C03 C18
 //@   requires c != nil
 //@   relies c.chConnectErr != nil && c.chConnSwitch != nil && forall(0, len(c.taskQueue), func(i int) bool { return c.taskQueue[i] != nil })
 //@   relies c.cli != nil && c.cli.Transport != nil
@@ -416,6 +420,10 @@ package mqtt
 //@        sameSlice(c.taskQueue, guardVal(&c.taskQueue))
 //@   loop 1 iter[C18,C01] close_on_error: evCount("fntype:func(ctx context.Context, cli *BaseClient)") == 1 ==>
 //@        evCount("Transport.Close") == ite(connected_next, 0, 1) && !c.newRetryByError
+//@   loop 1 iter[C01,C02] switch_noticed: connected && evCount("select") >= 1 && evRet[int]("select", 0, 0) == 0 ==> !connected_next && evCount("fntype:func(ctx context.Context, cli *BaseClient)") == 0
+//@   loop 1 iter[C01,C02] switch_noticed_idle: connected && evCount("select") == 2 && evRet[int]("select", 1, 0) == 1 ==> !connected_next &&
+//@        evArg[chan struct{}]("select", 1, 1) == evArg[chan struct{}]("select", 0, 0)
+//@   loop 1 iter[C01,C02] stays_connected: connected_next ==> connected || evCount("fntype:func(ctx context.Context, cli *BaseClient)") == 0
 //@   loop 2 exit[C01] connect_returned: evCount("select") == 1 && evRet[int]("select", 0, 0) == 0 && !evRet[bool]("select", 0, 1)
 
 //@ spec
